@@ -166,12 +166,12 @@ class ExternalVariableCollector(NodeVisitor):
         else:
             if node.lineno in self.comments:
                 self.vardoc[node.id] = self.comments[node.lineno]
-            self.provenance[node.id] = "body"
+            self.provenance.setdefault(node.id, "body")
             self.assigned.add(node.id)
 
     def visit_ExceptHandler(self, node):
         if node.name is not None:
-            self.provenance[node.name] = "body"
+            self.provenance.setdefault(node.name, "body")
             self.assigned.add(node.name)
         # The exception type and the body of the handler also use and
         # assign variables
@@ -180,7 +180,7 @@ class ExternalVariableCollector(NodeVisitor):
     def _visit_capture_pattern(self, node, name):
         # Names bound by match statements (case [x, *rest], case {**kw}, ...)
         if name is not None:
-            self.provenance[name] = "body"
+            self.provenance.setdefault(name, "body")
             self.assigned.add(name)
         self.generic_visit(node)
 
@@ -200,7 +200,7 @@ class ExternalVariableCollector(NodeVisitor):
         for alias in node.names:
             name = alias.asname or alias.name
             name = name.split(".")[0]
-            self.provenance[name] = "body"
+            self.provenance.setdefault(name, "body")
             self.assigned.add(name)
 
     def visit_arg(self, node):
